@@ -146,7 +146,9 @@ def _primitive(ctx, q, gpg):
                     chunks = [e[3] for e in evs if e[0] == "hash-update" and e[2] == h]
                     if h is not None and is_call(h) and h[2] and not h[1].endswith("hashes.Hash"):
                         chunks = [h[2][0]] + chunks
-                    msg_ok = bool(chunks) and chunks[0] == data
+                    from sa.terms import concat_parts
+
+                    msg_ok = bool(chunks) and concat_parts(chunks[0])[0] == data
                 else:
                     msg_ok = msg == data
                 if recv == want_key and a0 == want_sig and msg_ok:
